@@ -1898,7 +1898,8 @@ def make_edge_cases(rng, funcs, entries, tier):
         # quick tier: an edge case there costs seconds, not milliseconds
         costly = f in SLOW or f == "polygonize.polygonize"
         per = dict(quick=(1, 1, 2) if costly else (2, 2, 4),
-                   thorough=(len(COORD_STYLES), len(STRUCTURAL) + 2, 12 if costly else 40))[tier]
+                   thorough=(4 if costly else len(COORD_STYLES), 4 if costly else len(STRUCTURAL) + 2,
+                             6 if costly else 16))[tier]
         hints = (entries.get(f) or {}).get("hints") or {}
         if f.startswith("local.") or f in ("bump.bump", "convolution.custom_kernel"):
             styles, structs = [], []          # no DataArray argument with coordinates of its own
@@ -2078,10 +2079,21 @@ def run(r, full=False):
     rep = gen_report()
     entries = rep.get("entries", {})
     funcs = sorted(entries)
-    r.rule = ("per public function: (dtype, layout) pairs sampled from {int8..uint64,float32,float64} x {C,F,strided view,"
+    r.rule = ("main stream: per public function (dtype, layout) pairs sampled from {int8..uint64,float32,float64} x {C,F,strided view,"
               "read-only} (thorough: all 40 on numpy) x {numpy,dask}; 6x7 rasters with NaN cells for floats, scalar coords "
-              "and nested attrs; non-trivial = distinct (function, backend, dtype, layout, data seed); plus the primitive "
-              "probes (table entry x 5 dtypes x 4 layouts)")
+              "and nested attrs.  backend stream: every raster function with a Dask path x chunking class {single chunk, 1-cell, "
+              "1-row, 1-column, ragged remainder, thinner than the kernel half-width, uneven, regular} (quick: 3 classes per "
+              "function, all 8 for the functions that take a kernel) x kernel shape {3x3,5x5,7x5,5x7,3x5,5x3,1x1,3x1} on 10x13 "
+              "rasters; Dask in -> Dask out (lazy, blocks adding up to the shape, computes to the shape), NumPy in -> NumPy out.  "
+              "edge stream (rejected and boundary inputs; the arguments are compared whether the call returned or raised): "
+              "coordinate styles {descending, ascending y, non-monotonic, duplicates, geographic, 0..360 longitudes, < -180, "
+              "latitudes beyond 90, NaN, 1e12, 1e-9 steps, integer, crossing a number the source compares with}, structural "
+              "{1-D, 3-D, transposed, empty, single cell/row/column, no coords, bare ndarray, mismatching shape / coordinates "
+              "of the last raster}, edge values of every optional parameter (values the source compares it with or looks it up "
+              "under, boundary values of the default's type), and source-derived string parameters x threshold-crossing "
+              "coordinates.  targeted stream: when the checker rejects a program, the function is called with the values "
+              "that drive the guards of the offending store.  non-trivial = distinct case; plus the primitive, wrapper and "
+              "kind-table probes")
     r.trusted += ["harness/facts_bufprog.py primitive table (probed with np.shares_memory each run)",
                   "numpy / xarray / dask / numba run time (observed, not modelled)"]
     r.assumptions += ["the buffer program abstracts the Python source faithfully (translator trusted; prediction >= observation checked)",
